@@ -3,6 +3,7 @@
 //! per call (arguments + projected result) for validation by the matching trace specification,
 //! or replays TLC-generated cases.
 mod util;
+mod c03;
 mod c13;
 mod c15;
 mod c17;
@@ -18,6 +19,7 @@ fn main() {
     let args = util::Args::parse();
     util::quiet_panics();
     match args.scenario.as_str() {
+        "c03" => c03::run(&args),
         "c13" => c13::run(&args),
         "c15" => c15::run(&args),
         "c17" => c17::run(&args),
